@@ -135,6 +135,7 @@ type Goal struct {
 	ms     int64
 	model  string
 	script string
+	second string // thorough tier: answer of a second solver configuration on the same goal ("", "unsat", "sat", "unknown")
 }
 
 type State struct {
